@@ -69,8 +69,10 @@ enum act
     A_KILL_BEFORE,
     A_KILL_AFTER,
     A_SIGNAL,
-    A_SHORT
+    A_SHORT,
+    A_SIGDELAY /* sleep arg milliseconds before the operation, once a planned signal has been raised */
 };
+static int signalled = 0;
 struct plan
 {
     long at;        /* >0: counted index */
@@ -142,6 +144,11 @@ static void parse_plan(const char *s)
         {
             p->action = A_SHORT;
             p->arg = atol(action + 6);
+        }
+        else if (!strncmp(action, "sigdelay=", 9))
+        {
+            p->action = A_SIGDELAY;
+            p->arg = atol(action + 9);
         }
         else
             continue;
@@ -350,6 +357,15 @@ static int pre_op(long *k_out, const char *op, const char *path, int *after_kill
         pthread_mutex_unlock(&mu);
         raise((int)p->arg);
         pthread_mutex_lock(&mu);
+        signalled = 1;
+        return 0;
+    case A_SIGDELAY:
+        if (signalled)
+        {
+            pthread_mutex_unlock(&mu);
+            usleep((useconds_t)p->arg * 1000);
+            pthread_mutex_lock(&mu);
+        }
         return 0;
     case A_SHORT:
         *shortn = p->arg;
@@ -380,6 +396,59 @@ static uint64_t fnv(uint64_t h, const void *buf, size_t n)
     static __typeof__(name) *real = NULL; \
     if (!real) \
         real = dlsym(RTLD_NEXT, #name);
+
+/* ------------------------------------------------------------------------------------------- */
+/* directory entries: one counted operation per entry handed out (and one for the end of the directory), so that a
+ * plan can place a signal or a failure in the middle of source discovery. path = the directory, path2 = the entry. */
+
+#define READDIR_BODY(dirent_t, realfn) \
+    pthread_mutex_lock(&mu); \
+    init_once(); \
+    int fd = d ? dirfd(d) : -1; \
+    if (fd < 0 || fd >= MAXFD || !fds[fd].tracked) \
+    { \
+        pthread_mutex_unlock(&mu); \
+        return realfn(d); \
+    } \
+    const char *dp = fds[fd].path; \
+    long k; \
+    int ak; \
+    long sn; \
+    int e = pre_op(&k, "readdir", dp, &ak, &sn); \
+    if (e) \
+    { \
+        emit(k, "readdir", dp, NULL, fd, 0, -1, e, 0, 0, 0, NULL, 0, "errno"); \
+        pthread_mutex_unlock(&mu); \
+        errno = e; \
+        return NULL; \
+    } \
+    errno = 0; \
+    dirent_t *ent = realfn(d); \
+    int se = errno; \
+    while (ent && (!strcmp(ent->d_name, ".") || !strcmp(ent->d_name, ".."))) \
+    { \
+        errno = 0; \
+        ent = realfn(d); \
+        se = errno; \
+    } \
+    emit(k, "readdir", dp, ent ? ent->d_name : NULL, fd, 0, ent ? 1 : (se ? -1 : 0), ent ? 0 : se, 0, 0, 0, NULL, 0, NULL); \
+    if (ak) \
+        post_kill(k, "readdir", dp); \
+    pthread_mutex_unlock(&mu); \
+    errno = se; \
+    return ent;
+
+struct dirent *readdir(DIR *d)
+{
+    REAL(readdir);
+    READDIR_BODY(struct dirent, real)
+}
+
+struct dirent64 *readdir64(DIR *d)
+{
+    REAL(readdir64);
+    READDIR_BODY(struct dirent64, real)
+}
 
 /* ------------------------------------------------------------------------------------------- */
 /* open family */
